@@ -52,8 +52,7 @@ def run_pkcs1_decode(env, sh):
     env.check(r == result, 'returned offset == RFC 8017 decoding (message start when valid, sentinel start otherwise)')
     env.check(K.read(p_out, k) == output, 'output buffer == EM when valid, right-aligned sentinel otherwise')
     env.check(K.live_heap() == [], 'no allocation outlives the call')
-    if K.sym:
-        env.check(set(K.written_objects()) <= {'output'}, 'only the output buffer is written')
+    K.check_frame(('output',), 'only the output buffer is written')
 
 
 # ---- RFC 8017 7.1.2 step 3g (EME-OAEP decoding) over (Y, DB)
@@ -90,8 +89,7 @@ def run_oaep_decode(env, sh):
     ok, off = ref_oaep(env, em[0], lhash, db)
     env.check(r == off, 'oaep_decode == RFC 8017 7.1.2 step 3g decision (offset of M, or -1)')
     env.check(K.live_heap() == [], 'no allocation outlives the call')
-    if K.sym:
-        env.check(K.written_objects() == [], 'no caller buffer is written')
+    K.check_frame((), 'no caller buffer is written')
 
 
 # ---- Python wrappers with the C in the loop
